@@ -17,7 +17,7 @@ FMT_DEFS = {
 
 
 def gen_case(rng, scale=1):
-    params = dict(n_contigs=rng.choice([1, 2, 2]), n_trios=0, quartet=False, n_singles=rng.choice([1, 2, 2, 3]),
+    params = dict(n_contigs=rng.choice([1, 2, 2]), n_trios=0, quartet=False, n_singles=rng.choice([1, 2, 2, 3, 4]),
                   n_variants=[4, 7 + 2 * scale], depth=[3, 6], read_len=[130, 380], het_prob=rng.choice([0.6, 0.8, 0.95]),
                   recomb_prob=0.0, kinds=rng.choice([["snv"], ["snv"], ["snv", "snv", "ins", "del"]]),
                   shuffle_samples=False)
@@ -37,7 +37,9 @@ def gen_case(rng, scale=1):
             "opts": {"tag1": rng.choice(["PS", "HP"]), "distrust": distrust, "include_hom": bool(distrust and rng.random() < 0.4),
                      "subset": rng.random() < 0.3, "only_snvs": rng.random() < 0.2,
                      # run C restricted to the first chromosome; run E = re-phase C back with the first tag (PS -> HP -> PS)
-                     "chrom_subset": rng.random() < 0.4, "back": rng.random() < 0.6}}
+                     "chrom_subset": rng.random() < 0.4, "back": rng.random() < 0.6,
+                     # run Q with an explicit coverage cap (--internal-downsampling); None = the documented default of 15
+                     "q_k": rng.choice([None, None, None, 1, 2, 3, 4, 7, 15, 16])}}
 
 
 def build_inputs(case, d):
@@ -122,6 +124,65 @@ def gen_interleaved_case(rng, cli=True):
     return case
 
 
+DEFAULT_CAP = 15          # documented default of --internal-downsampling
+
+
+def gen_stack_case(rng, cli=True, quick=True):
+    """2-4 (sometimes 1) unrelated samples in one VCF, per sample a number of MUTUALLY OVERLAPPING phase sets between 2 and the
+    coverage cap k (--internal-downsampling k; None = not given = 15) and a little beyond it; a pseudo-read run needs one read
+    per set at a position that all sets span, so whether the sets fit depends on k and on how many sets overlap - and not on how
+    many samples, contigs or sets the file has"""
+    k = rng.choice([None, None, None] + [rng.randrange(2, 13 if quick else 16)] * 3)
+    cap = DEFAULT_CAP if k is None else k
+    n_samples = rng.choice([1, 2, 2, 2, 3, 3, 4])
+    m = [max(2, rng.choice([cap, cap, cap, cap - 1, rng.randrange(2, cap + 1), rng.randrange(2, cap + 1), cap + 1, cap + 3]))
+         for _ in range(n_samples)]
+    case = {"kind": "interleaved", "gen_seed": rng.randrange(1 << 40), "cli": cli, "pattern": "stack",
+            "n_samples": n_samples, "n_contigs": rng.choice([1, 1, 1, 2]), "k": k, "stack_m": m,
+            "n_variants": 0, "het9": True, "stack_groups": rng.choice([1, 1, 1, 2]),
+            "p_phase": rng.choice([1.0, 1.0, 0.95]), "enc": rng.choice(["PS", "HP"]), "tag": rng.choice(["PS", "HP"]),
+            "v_noise": rng.choice([0.0, 0.0, 0.03]), "only_snvs": rng.random() < 0.15}
+    # (9 of 11 genotypes are heterozygous; every group of mutually overlapping sets needs 2 * m heterozygous variants)
+    case["n_variants"] = case["stack_groups"] * (int(2 * max(m) * 1.3) + rng.choice([2, 5, 9]))
+    case["layout"] = L.pick_layout(case["gen_seed"], p_plain=0.7)
+    if not L.is_plain(case["layout"]):
+        case["n_contigs"] = 2
+        case["layout"]["contigs"] = 2
+    return case
+
+
+def _stack_sets(rng, het_idx, m, groups=1):
+    """`groups` consecutive groups of m sets each; the sets of a group all overlap each other (more sets than the cap in the
+    file, but never more than m over one position)"""
+    if groups > 1:
+        cut = len(het_idx) // groups
+        out = {}
+        for g in range(groups):
+            part = het_idx[g * cut:(g + 1) * cut] if g < groups - 1 else het_idx[g * cut:]
+            for i, b in _stack_sets(rng, part, m).items():
+                out[i] = b + g * m
+        return out
+    return _stack_group(rng, het_idx, m)
+
+
+def _stack_group(rng, het_idx, m):
+    """m sets that all overlap each other: every set has a member among the first m heterozygous variants and one among the
+    last m; what lies between goes to random sets (interleaved)"""
+    n = len(het_idx)
+    m = max(1, min(m, n // 2))
+    head, tail = list(range(m)), list(range(m))
+    rng.shuffle(head); rng.shuffle(tail)
+    out = {}
+    for j, i in enumerate(het_idx):
+        if j < m:
+            out[i] = head[j]
+        elif j >= n - m:
+            out[i] = tail[j - (n - m)]
+        else:
+            out[i] = rng.randrange(m)
+    return out
+
+
 def _assign_sets(rng, het_idx, pattern):
     """{variant index: set number} for the heterozygous variants of one sample on one contig"""
     n = len(het_idx)
@@ -153,7 +214,7 @@ def build_interleaved(case, d):
     returns (V path, P path, samples)"""
     rng = random.Random(case["gen_seed"])
     samples = [f"S{i}" for i in range(case["n_samples"])]
-    contigs = {f"chr{c + 1}": "N" * 5000 for c in range(case["n_contigs"])}
+    contigs = {f"chr{c + 1}": "N" * (30000 if case["pattern"] == "stack" else 5000) for c in range(case["n_contigs"])}
     enc = case["enc"]
     recs_v, recs_p = [], []
     groups_v, groups_p = [], []
@@ -168,11 +229,15 @@ def build_interleaved(case, d):
             alt = rng.choice([x for x in "ACGT" if x != ref]) if kind == "snv" else ref + rng.choice(["A", "CG", "T"])
             sites.append((pos, ref, alt))
         per_sample = []
-        for s in samples:
-            gts = [rng.choice([(0, 1)] * 5 + [(0, 0), (1, 1)]) for _ in sites]
+        for sj, s in enumerate(samples):
+            gts = [rng.choice([(0, 1)] * (9 if case.get("het9") else 5) + [(0, 0), (1, 1)]) for _ in sites]
             het_idx = [i for i, g in enumerate(gts) if g == (0, 1)]
-            sets = _assign_sets(rng, het_idx, case["pattern"])
-            ids = rng.sample([3, 17, 250, 999, 4321, 77], 4)
+            if case["pattern"] == "stack":
+                sets = _stack_sets(rng, het_idx, case["stack_m"][sj], case.get("stack_groups", 1))
+                ids = rng.sample(range(1, 6000), max(sets.values(), default=0) + 1)
+            else:
+                sets = _assign_sets(rng, het_idx, case["pattern"])
+                ids = rng.sample([3, 17, 250, 999, 4321, 77], 4)
             per_sample.append((gts, sets, ids))
         for i, (pos, ref, alt) in enumerate(sites):
             cv, cp = [], []
@@ -184,7 +249,7 @@ def build_interleaved(case, d):
                 cv.append({"GT": v_gt})
                 call = {"GT": f"{a}/{b}", "PS": ".", "HP": "."}
                 r = rng.random()
-                if i in sets and r < 0.9:
+                if i in sets and r < case.get("p_phase", 0.9):
                     block = ids[sets[i]]
                     flip = rng.random() < 0.5
                     if enc == "PS":
